@@ -20,3 +20,12 @@ func VerifTraceEntries(m Message) ([]Message, bool) {
 
 // VerifBufferCap returns the capacity of the log buffer (0 before Start).
 func VerifBufferCap() int { return cap(logBuffer) }
+
+// VerifSetBufferCap replaces the (still empty) log buffer by one of the given capacity. To be called
+// right after Start and before anything is logged: small capacities make the buffer-full and
+// forced-emptying paths frequent. The writer reads the variable only after a producer woke it up.
+func VerifSetBufferCap(n int) {
+	if n > 0 && len(logBuffer) == 0 {
+		logBuffer = make(chan *logLine, n)
+	}
+}
